@@ -47,7 +47,7 @@ func toJGP(p *gpb.Path) jGP {
 
 // small alphabets: the property's bounded universe
 var relNamesA = []string{"a", "b"}
-var relKeysA = []string{"k1", "k2"}
+var relKeysA = []string{"k1", "k2", "k3"}
 var relValsA = []string{"v", "w", "*"}
 
 func genRelPath(rng *rand.Rand, maxLen int, big bool) *gpb.Path {
@@ -114,7 +114,7 @@ func mutateRel(rng *rand.Rand, p *gpb.Path) *gpb.Path {
 					v, ok := e.Key[k]
 					if ok {
 						delete(e.Key, k)
-						e.Key[pick(rng, []string{"id", "name", "k3"})] = v
+						e.Key[pick(rng, []string{"id", "name", "k4"})] = v
 					}
 				} else {
 					if e.Key == nil {
@@ -136,18 +136,20 @@ func mutateRel(rng *rand.Rand, p *gpb.Path) *gpb.Path {
 
 type cElem struct {
 	name string
-	vals [2]string // values of k1, k2
+	vals [3]string // values of k1, k2, k3
 }
 
 var uniNames = []string{"a", "b", "c"}
-var uniVals = []string{"v", "w", "u"}
+var uniVals = []string{"v", "w"} // two values decide every relation of paths whose key values are single values or "*"
 
 func allCElems() []cElem {
 	var out []cElem
 	for _, n := range uniNames {
 		for _, v1 := range uniVals {
 			for _, v2 := range uniVals {
-				out = append(out, cElem{n, [2]string{v1, v2}})
+				for _, v3 := range uniVals {
+					out = append(out, cElem{n, [3]string{v1, v2, v3}})
+				}
 			}
 		}
 	}
@@ -253,7 +255,7 @@ func smallUniverse(p *gpb.Path) bool {
 			return false
 		}
 		for k, v := range e.GetKey() {
-			if (k != "k1" && k != "k2") || (v != "v" && v != "w" && v != "*") {
+			if (k != "k1" && k != "k2" && k != "k3") || (v != "v" && v != "w" && v != "*") {
 				return false
 			}
 		}
@@ -272,7 +274,7 @@ func swapRel(r util.CompareRelation) util.CompareRelation {
 }
 
 func pathrelStream(rng *rand.Rand, n int, tier string, out string) (*Summary, error) {
-	sum := &Summary{Rule: "pairs of gNMI paths over names {a,b}, keys {k1,k2}, values {v,w,*,absent} of length <= 3 (the second usually a small mutation of the first), plus larger paths with random names/keys; every util/gnmi.go relation function is called on them. Non-trivial: the pair is not Disjoint-by-first-name and has at least one key; distinct by input."}
+	sum := &Summary{Rule: "pairs of gNMI paths over names {a,b}, keys {k1,k2,k3}, values {v,w,*,absent} of length <= 3 (the second usually a small mutation of the first), all 64x64 pairs of single elements with up to three keys (alone, under a common parent, with a trailing element), plus larger paths with random names/keys; every util/gnmi.go relation function is called on them. Non-trivial: the pair is not Disjoint-by-first-name and has at least one key; distinct by input."}
 	cf := &caseFile{header: "From Ygot Require Import Base.Base Path.PathString Path.PathRel Corr.PathRelCorr.", typ: "rcase", fn: "rmismatches"}
 	id := 0
 	seen := map[string]bool{}
@@ -483,6 +485,63 @@ func pathrelStream(rng *rand.Rand, n int, tier string, out string) (*Summary, er
 		if rng.Intn(2) == 0 {
 			otherCases(a, b)
 		}
+	}
+	// exhaustive over single elements with up to three keys: every pair of elements a[k1=..][k2=..][k3=..]
+	// (64 x 64), each also under a common parent and with a trailing element on one side. A relation
+	// that is only wrong once three keys differ (one narrowing each way and a third) is met here
+	// whatever the map order; every 16th pair also goes through the model.
+	{
+		opts := []string{"", "v", "w", "*"}
+		var es []*gpb.PathElem
+		for _, v1 := range opts {
+			for _, v2 := range opts {
+				for _, v3 := range opts {
+					e := &gpb.PathElem{Name: "a"}
+					for i, v := range []string{v1, v2, v3} {
+						if v != "" {
+							if e.Key == nil {
+								e.Key = map[string]string{}
+							}
+							e.Key[relKeysA[i]] = v
+						}
+					}
+					es = append(es, e)
+				}
+			}
+		}
+		cnt := 0
+		for _, ea := range es {
+			for _, eb := range es {
+				cnt++
+				a, b := mk(ea), mk(eb)
+				switch cnt % 3 {
+				case 1:
+					a, b = mk(&gpb.PathElem{Name: "b"}, ea), mk(&gpb.PathElem{Name: "b"}, eb)
+				case 2:
+					a = mk(ea, &gpb.PathElem{Name: "b"})
+				}
+				r := util.ComparePaths(a, b)
+				in := map[string]interface{}{"a": toJGP(a), "b": toJGP(b)}
+				sum.OracleRuns++
+				for i := 0; i < 5; i++ {
+					if r2 := util.ComparePaths(a, b); r2 != r {
+						sum.finding(Finding{Signature: "compare/order-dependent", What: "ComparePaths gives different answers on repeated calls (map iteration order)", Input: in, Observed: []string{relNames[r], relNames[r2]}})
+						break
+					}
+				}
+				if want := bruteRelation(a, b); want != r {
+					sum.finding(Finding{Signature: "compare/denotation", What: "ComparePaths differs from the set relation of the denotations", Input: in, Observed: relNames[r], Expected: relNames[want]})
+				}
+				if rs := util.ComparePaths(b, a); rs != swapRel(r) {
+					sum.finding(Finding{Signature: "compare/swap", What: "ComparePaths(b,a) is not the swap of ComparePaths(a,b)", Input: in, Observed: []string{relNames[r], relNames[rs]}})
+				}
+				if cnt%16 == 0 {
+					cf.add(fmt.Sprintf("RCompare %d %s %s %s", id, coqGP(a), coqGP(b), relNames[r]))
+					id++
+				}
+			}
+		}
+		sum.count("compare_kind", "three-key-elements-exhaustive")
 	}
 	if tier == "thorough" {
 		// exhaustive over the bounded alphabet: all pairs of paths of length <= 2 (oracle only;
